@@ -13,6 +13,7 @@ import (
 	"time"
 
 	"github.com/irai/packet"
+	"github.com/irai/packet/handlers/arp_spoofer"
 	"github.com/irai/packet/handlers/dhcp4_spoofer"
 	"github.com/irai/packet/handlers/dns_naming"
 	"github.com/irai/packet/handlers/icmp_spoofer"
@@ -30,10 +31,11 @@ type env struct {
 	dns   *dns_naming.DNSHandler
 	lease string
 	pend  [][]byte // emitted frames not yet reported
-	cw    string   // caller-write class: the application overwrites every byte slice the library hands back ("" = none)
-	lazy  bool     // leave notifications queued in Session.C across packets (and scribbles)
-	slots []*slot  // one per step, filled when the channel is drained
-	given int      // notifications already attributed to a slot
+	arp   *arp_spoofer.Handler
+	cw    string  // caller-write class: the application overwrites every byte slice the library hands back ("" = none)
+	lazy  bool    // leave notifications queued in Session.C across packets (and scribbles)
+	slots []*slot // one per step, filled when the channel is drained
+	given int     // notifications already attributed to a slot
 }
 
 type slot struct {
@@ -782,6 +784,18 @@ func (e *env) callerWritesGetters() {
 			}
 		}
 	}
+	if e.cw == "whois" || e.cw == "all" {
+		if e.arp == nil {
+			e.arp, _ = arp_spoofer.New(e.s)
+		}
+		for _, h := range e.s.GetHosts() {
+			if h.Addr.IP.Is4() && e.arp != nil {
+				if a, err := e.arp.WhoIs(h.Addr.IP); err == nil {
+					flip(a.MAC)
+				}
+			}
+		}
+	}
 	if e.cw == "findrouter" || e.cw == "all" {
 		e.icmp6.Lock()
 		var ips []netip.Addr
@@ -830,4 +844,4 @@ func (e *env) callerWritesGetters() {
 	}
 }
 
-var cwClasses = []string{"notif", "findbymac", "ipaddrs", "findrouter", "mdnsret", "dnsret", "dnsfind"}
+var cwClasses = []string{"notif", "findbymac", "ipaddrs", "whois", "findrouter", "mdnsret", "dnsret", "dnsfind"}
